@@ -296,6 +296,16 @@ def fixed_pairs(ctx, home):
                   "new/_package.yml": "namespace: App\nimports:\n  - ../lib\nversions:\n  v0: ../old\n"}
         cases.append(("same-simple-name-enum-value-removed-" + nm, dict(shared, **{"old/a.yml": mk(", calibrating", ""), "new/a.yml": mk("", "?")}), "reject"))
         cases.append(("same-simple-name-only-compatible-" + nm, dict(shared, **{"old/a.yml": mk("", ""), "new/a.yml": mk("", "?")}), "accept"))
+    # a definition renamed through an alias (the documented way to rename) *and* changed inside in the same step: the verdict is that of the inner change
+    ren_old = "MyRecord: !record\n  fields:\n    firstName: string\n    lastName: string\n%sMyProtocol: !protocol\n  sequence:\n    people: !stream\n      items: MyRecord\n%s"
+    ren_new = "Person: !record\n  fields:\n    firstName: %s\n    lastName: string\n%sMyRecord: Person\n%sMyProtocol: !protocol\n  sequence:\n    people: !stream\n      items: Person\n%s"
+    en_old, en_new = "Mood: !enum\n  values: [calm, busy, idle]\n", "State: !enum\n  values: [calm, busy%s]\nMood: State\n"
+    cases.append(("rename-only", local(ren_old % ("", ""), ren_new % ("string", "", "", "")), "accept-clean"))
+    cases.append(("rename-and-add-field", local(ren_old % ("", ""), ren_new % ("string", "    age: int\n", "", "")), "accept-warning"))
+    cases.append(("rename-and-scalar-to-vector", local(ren_old % ("", ""), ren_new % ("string*", "", "", "")), "reject"))
+    cases.append(("rename-and-number-to-string", local(ren_old % ("", ""), ren_new % ("int", "", "", "")), "accept-warning"))
+    cases.append(("enum-renamed-only", local(ren_old % (en_old, "    m: Mood\n"), ren_new % ("string", "", en_new % ", idle", "    m: State\n")), "accept-clean"))
+    cases.append(("enum-renamed-and-value-removed", local(ren_old % (en_old, "    m: Mood\n"), ren_new % ("string", "", en_new % "", "    m: State\n")), "reject"))
     for name, files, expect in cases:
         cdir = os.path.join(ctx.workdir, "cases", "fixed_" + name)
         shutil.rmtree(cdir, ignore_errors=True)
@@ -313,6 +323,12 @@ def fixed_pairs(ctx, home):
             ctx.violation("panic@%s" % v["panic"], "fixed pair %s: crash" % name, case)
         elif expect == "accept" and v["rc"] != 0:
             ctx.violation("unchanged-rejected:%s" % name, "fixed pair %s: the two versions are identical but the package is rejected: %s" % (name, v["errors"][:1]), case)
+        elif expect == "accept-clean" and (v["rc"] != 0 or v["warnings"] or v["errors"]):
+            ctx.violation("not-clean:%s" % name, "fixed pair %s: a rename through an alias alone must be accepted without diagnostics: rc=%s %s" % (name, v["rc"], (v["errors"] + v["warnings"])[:1]), case)
+        elif expect == "accept-warning" and v["rc"] != 0:
+            ctx.violation("rejected:partial:%s" % name, "fixed pair %s: a partially compatible change rejected: %s" % (name, v["errors"][:1]), case)
+        elif expect == "accept-warning" and not v["warnings"]:
+            ctx.violation("no-warning:%s" % name, "fixed pair %s: a partially compatible change inside a definition that was also renamed through an alias gives no warning" % name, case)
         elif expect == "reject" and (v["rc"] != 1 or not v["errors"]):
             ctx.violation("breaking-accepted:%s" % name, "fixed pair %s: a documented breaking change is accepted (rc=%s)" % (name, v["rc"]), case)
         else:
